@@ -200,6 +200,20 @@ CHECKS['C16'] = dict(
    technique="TLA+ input enumeration (TLC) + code->spec trace validation of every scanner/matcher result",
    ref="5/C16")
 
+CHECKS['C17'] = dict(
+   text="HtmlDoc.tla and CssDoc.tla (the document generators with ground truth of C09 / C10, extended by class attributes, empty and "
+        "expression values) also define the contract of the action helpers on the truth table: per tag the selection ranges (name, each "
+        "attribute from name to value end, unquoted value, each class token), per position the open tag, the next and the previous tag; "
+        "per rule its body range and direct declarations with name, value, value tokens, before and after offsets; per position the "
+        "innermost section and the next / previous item with full, value and value-token ranges. TLC checks that every range lies "
+        "inside its tag / item, is non-empty, ordered and de-duplicated, that declaration offsets are monotone inside the body and "
+        "that next / previous walk the same tag sequence in opposite directions. The real get_open_tag, select_item_html, "
+        "get_css_section(properties=True) and select_item_css are called at every position of every generated document.",
+   note="Not judged: get_open_tag inside a closing tag, select_item_css next strictly inside a declaration head; F16 as in C10. "
+        "Bounds as C09 / C10.",
+   technique="TLA+ contract on generated ground truth (TLC) + spec->code replay at every position",
+   ref="5/C17")
+
 NOT_YET = {}
 
 def main():
